@@ -216,7 +216,8 @@ def note(key, value):
 
 
 def note_append(key, value):
-    _ex().notes.setdefault(key, []).append(value)
+    if Explorer.current is not None:  # outside an exploration (proxy cross-check) there is no path log
+        Explorer.current.notes.setdefault(key, []).append(value)
 
 
 # --------------------------------------------------------------------------------------------------------
